@@ -93,6 +93,8 @@ type Scenario struct {
 	// Recipe, when set, fixes the script of the first Byzantine node (a dealer) instead of drawing it:
 	// "victim=<j>;share=<beh>;vector=<beh>;answer=<beh>;inj=<kind>@<round>,..." (directed grid of the
 	// interactions around one honest victim); the other Byzantine nodes still draw theirs from Seed.
+	// Several recipes separated by "||" address Byz[0], Byz[1], ... in turn; "shares=<beh>@j1.j2" treats
+	// several receivers alike; "victim=" may be repeated (it also names the target of the injections after it).
 	Recipe string `json:",omitempty"`
 }
 
@@ -292,8 +294,14 @@ func (s *Sim) drawScript(b int) *Script {
 		}
 		return sc
 	}
-	if s.Sc.Recipe != "" && len(s.Sc.Byz) > 0 && b == s.Sc.Byz[0] {
-		return s.recipeScript(s.Sc.Recipe)
+	if s.Sc.Recipe != "" {
+		// "recipe of Byz[0] || recipe of Byz[1] || ...": an empty or missing part leaves that node's script drawn
+		parts := strings.Split(s.Sc.Recipe, "||")
+		for i, bz := range s.Sc.Byz {
+			if bz == b && i < len(parts) && strings.TrimSpace(parts[i]) != "" {
+				return s.recipeScript(strings.TrimSpace(parts[i]))
+			}
+		}
 	}
 	// focused mode (half of the Byzantine dealers): everything honest except a dense mix of the
 	// behaviours that interact around ONE honest victim's share, complaint and answer
@@ -432,6 +440,14 @@ func (s *Sim) recipeScript(rec string) *Script {
 			fmt.Sscan(v, &victim)
 		case "share":
 			sc.Share[victim%s.Sc.N] = parseBehaviour(v)
+		case "shares": // <behaviour>@j1.j2.j3 : the same behaviour towards several receivers
+			bh, list, _ := strings.Cut(v, "@")
+			for _, js := range strings.Split(list, ".") {
+				var j int
+				if _, err := fmt.Sscan(js, &j); err == nil {
+					sc.Share[j%s.Sc.N] = parseBehaviour(bh)
+				}
+			}
 		case "vector":
 			sc.Vector = parseBehaviour(v)
 		case "answer":
